@@ -80,7 +80,7 @@ def parse_struct(text):
             kind = 'i'
             if int(ty[1:]) != w:
                 raise ValueError(f"type {ty} does not match {w} bits")
-        elif ty.startswith('Option<'):
+        elif re.match(r'(::)?((core|std)::option::)?Option<', ty):
             kind = 'o'
         elif re.fullmatch(r'(self::)?N\d+', ty):
             kind = 'c'
